@@ -273,6 +273,14 @@ def _check_fp(case):
             out.bad(f"second receptor {(mx2, my2)} on the same grid: cell ({j},{i}) footprint {ff2[j, i]!r}, closed form {ref2[j, i]!r} "
                     f"(first receptor was {(mx, my)}; wd {wd!r})")
         out.label("second-receptor-checked")
+    # ... and once more with only the crosswind spread changed (same grid, same receptor)
+    if not out.fail and not case.get("_is_twin"):
+        t = dict(case)
+        t["_is_twin"] = True
+        t["p"] = dict(p, sv=p["sv"] * 2.0)
+        t["shift2"] = [0, 0]
+        for f_ in _check_fp(t).fail:
+            out.bad(f"second call differing only in sigma_v: {f_}")
     return out
 
 
@@ -345,7 +353,12 @@ def _check_z0(case):
     zm, ws, wd, ustar, L = obs.T.copy()
     hw = case["half"]
     out.label("z0", f"half={hw}", f"nobs={'1' if len(zm) == 1 else '2-4' if len(zm) < 5 else '5+'}")
-    raw = estimateZ0(zm.copy(), ws.copy(), wd.copy(), ustar.copy(), L.copy(), half_wd_win=0)
+    keep = [a.copy() for a in (zm, ws, wd, ustar, L)]
+    raw = estimateZ0(zm, ws, wd, ustar, L, half_wd_win=0)
+    estimateZ0(zm, ws, wd, ustar, L, half_wd_win=max(hw, 1))
+    if not all(np.array_equal(a, b) for a, b in zip((zm, ws, wd, ustar, L), keep)):
+        out.bad("estimateZ0 modified its input arrays")
+        zm, ws, wd, ustar, L = [a.copy() for a in keep]
     psi = np.array([_psi(a / b) for a, b in zip(zm, L)])
     ok = np.isfinite(raw)
     back = ustar[ok] / K * (np.log(zm[ok] / raw[ok]) + psi[ok])
